@@ -1578,45 +1578,61 @@ fn now_ns() -> i128 {
 /// decode as an untrusted (network) header; returns false if the clock made the verdict
 /// ambiguous (caller regenerates)
 fn run_read(r: &mut Report, id: &CaseId, cand: &BlockHeader) -> bool {
-	let bytes = ser::ser_vec(cand, ProtocolVersion::local()).expect("ser header");
+	use grin_core::core::{CompactBlock, TransactionBody, UntrustedBlock, UntrustedCompactBlock};
 	let c = rh(cand);
-	let before = now_ns();
-	let got: Result<UntrustedBlockHeader, ser::Error> =
-		ser::deserialize(&mut &bytes[..], ProtocolVersion::local(), DeserializationMode::default());
-	let after = now_ns();
-	let (e1, e2) = (ref_rules_read(Net::Auto, &c, before), ref_rules_read(Net::Auto, &c, after));
-	if e1 != e2 {
-		return false;
-	}
-	r.evaluations += 1;
-	r.distinct += 1;
-	let cls = match &got {
-		Ok(_) => "accept".to_string(),
-		Err(e) => format!("reject:{}", err_class(e)),
-	};
-	r.outcome(&format!("untrusted_read:{}", cls));
-	for rule in &e1 {
-		r.outcome(&format!("ref-read:{}", rule));
-	}
-	let case = id.json(Entry::Read, cand);
-	match (got, e1.is_empty()) {
-		(Ok(_), false) => r.violation(
-			format!("read:accepted-invalid:{}:{}", id.op, id.variant()),
-			format!("UntrustedBlockHeader::read accepted a header (height {}, {}, {}) violating {:?}", id.h, id.op, id.variant(), e1),
-			case,
-		),
-		(Err(e), true) => r.violation(
-			format!("read:rejected-valid:{}:{}", id.op, id.variant()),
-			format!("UntrustedBlockHeader::read refused ({:?}) a header (height {}, {}, {}) that obeys every read-time rule", e, id.h, id.op, id.variant()),
-			case,
-		),
-		(Ok(ub), true) => {
-			let back = BlockHeader::from(ub);
-			if &back != cand {
-				r.violation("read:roundtrip", format!("decoded header differs from the encoded one (height {}, {})", id.h, id.op), case);
+	// the header alone, and carried by a full block and by a compact block (empty bodies, which pass every
+	// read-time body check): all three are read from the network and must apply the same header rules
+	let empty_block = Block { header: cand.clone(), body: TransactionBody::empty() };
+	let wrappers: Vec<(&str, Vec<u8>)> = vec![
+		("header", ser::ser_vec(cand, ProtocolVersion::local()).expect("ser header")),
+		("block", ser::ser_vec(&empty_block, ProtocolVersion::local()).expect("ser block")),
+		("compact_block", ser::ser_vec(&CompactBlock::from(empty_block.clone()), ProtocolVersion::local()).expect("ser compact block")),
+	];
+	for (wname, bytes) in wrappers {
+		let before = now_ns();
+		let got: Result<BlockHeader, ser::Error> = match wname {
+			"header" => ser::deserialize::<UntrustedBlockHeader, _>(&mut &bytes[..], ProtocolVersion::local(), DeserializationMode::default()).map(BlockHeader::from),
+			"block" => ser::deserialize::<UntrustedBlock, _>(&mut &bytes[..], ProtocolVersion::local(), DeserializationMode::default()).map(|b| Block::from(b).header),
+			_ => ser::deserialize::<UntrustedCompactBlock, _>(&mut &bytes[..], ProtocolVersion::local(), DeserializationMode::default()).map(|b| CompactBlock::from(b).header),
+		};
+		let after = now_ns();
+		let (e1, e2) = (ref_rules_read(Net::Auto, &c, before), ref_rules_read(Net::Auto, &c, after));
+		if e1 != e2 {
+			return false;
+		}
+		r.evaluations += 1;
+		r.distinct += 1;
+		let cls = match &got {
+			Ok(_) => "accept".to_string(),
+			Err(e) => format!("reject:{}", err_class(e)),
+		};
+		r.outcome(&format!("untrusted_read:{}:{}", wname, cls));
+		if wname == "header" {
+			for rule in &e1 {
+				r.outcome(&format!("ref-read:{}", rule));
 			}
 		}
-		_ => {}
+		let mut case = id.json(Entry::Read, cand);
+		case["wrapper"] = serde_json::json!(wname);
+		let sfx = if wname == "header" { String::new() } else { format!(":in-{}", wname) };
+		match (got, e1.is_empty()) {
+			(Ok(_), false) => r.violation(
+				format!("read:accepted-invalid:{}:{}{}", id.op, id.variant(), sfx),
+				format!("reading an untrusted {} accepted a header (height {}, {}, {}) violating {:?}", wname, id.h, id.op, id.variant(), e1),
+				case,
+			),
+			(Err(e), true) => r.violation(
+				format!("read:rejected-valid:{}:{}{}", id.op, id.variant(), sfx),
+				format!("reading an untrusted {} refused ({:?}) a header (height {}, {}, {}) that obeys every read-time rule", wname, e, id.h, id.op, id.variant()),
+				case,
+			),
+			(Ok(back), true) => {
+				if &back != cand {
+					r.violation("read:roundtrip", format!("decoded header differs from the encoded one (height {}, {}, as {})", id.h, id.op, wname), case);
+				}
+			}
+			_ => {}
+		}
 	}
 	true
 }
